@@ -32,7 +32,7 @@ from typing import Any, Dict, Iterable, List, Optional, Tuple
 from gymnasium import spaces
 from hypothesis import strategies as st
 
-from ..harness import CaseResult, Ctx, enum_run, hyp_run, jhash
+from ..harness import CaseResult, Ctx, enum_run, hyp_run
 from ..simutil import base_cfg, computer, exc_msg, exc_sig, link, new_env, new_game, switch
 
 # ---------------------------------------------------------------------------------------------------------------------
@@ -118,12 +118,13 @@ class Cow:
         self.root = dict(base)
         self._own = {id(self.root)}
 
-    def _dir(self, path: List, create: bool) -> Optional[Dict]:
+    def _dir(self, path: List, create_from: Optional[int] = None) -> Optional[Dict]:
+        """Owned dict at path; missing levels are created only at depth >= create_from (else None is returned)."""
         node = self.root
-        for k in path:
-            child = node.get(k) if isinstance(node, dict) else None
+        for depth, k in enumerate(path):
+            child = node.get(k)
             if not isinstance(child, dict):
-                if not create:
+                if create_from is None or depth < create_from:
                     return None
                 child = {}
                 node[k] = child
@@ -139,12 +140,13 @@ class Cow:
         """Assign a leaf. If the component that holds the leaf is absent (deleted earlier in the case) this is a no-op:
         a half-built component is not a state the simulator emits. Only below a NIC's per-tick ``traffic`` dict are
         missing protocol / port levels created, as the simulator does when it first sees such a frame."""
-        d = self._dir(path[:-1], "traffic" in path[:-1])
+        parent = path[:-1]
+        d = self._dir(parent, parent.index("traffic") + 1 if "traffic" in parent else None)
         if d is not None:
             d[path[-1]] = copy.deepcopy(value)
 
     def delete(self, path: List):
-        d = self._dir(path[:-1], False)
+        d = self._dir(path[:-1])
         if d is not None:
             d.pop(path[-1], None)
 
@@ -259,7 +261,7 @@ def run_case(case: Dict) -> CaseResult:
                 raise AssertionError(f"harness: offender walkers disagree: {first} vs {offs[:1]}")
             for off in offs:
                 res.violate(f"component:{name}:{_norm_path(off)}",
-                            f"op#{i}: leaf {off} = {leaf_at(o, off[:-1])!r} not in {leaf_at_space(space, off[:-1])}")
+                            f"op#{i}: {describe_offender(space, o, off)}")
         if count_nondefault(o, ob.default_observation) >= 1:
             rich += 1
     try:
@@ -273,6 +275,14 @@ def run_case(case: Dict) -> CaseResult:
     for lab in case.get("labels", []):
         res.label("cmp:" + lab)
     return res
+
+
+def describe_offender(space, obs, off) -> str:
+    if off[-1] == "<missing>":
+        return f"key {off[:-1]} is declared by the space ({leaf_at_space(space, off[:-1])}) but missing from the observation"
+    if off[-1] == "<extra>":
+        return f"key {off[:-1]} = {leaf_at(obs, off[:-1])!r} is in the observation but not declared by the space"
+    return f"leaf {off} = {leaf_at(obs, off[:-1])!r} not in {leaf_at_space(space, off[:-1])}"
 
 
 def leaf_at_space(space, path):
@@ -518,6 +528,13 @@ def ex_host(E, cap: int) -> Iterable[Dict]:
                                        S(FS + ["num_file_deletions"], de)])
         yield mk("host", cfg, [], [D(H0)], labels=["absent"])
         yield mk("host", dict(cfg, hostname="ghost"), [], [], labels=["absent"])
+        # interfaces listed explicitly (one present, one absent) instead of "the first num_nics"
+        nic_cfg = dict(cfg, network_interfaces=[{"nic_num": 1, "monitored_traffic": {"icmp": ["NONE"], "udp": ["DNS"]}},
+                                                {"nic_num": 5}], num_nics=3)
+        for nos, en in itertools.product(E["node"], (True, False)):
+            yield mk("host", nic_cfg, [], [S(H0 + ["operating_state"], nos), S(NIC1 + ["enabled"], en),
+                                           S(NIC1 + ["traffic", "udp", 53], {"inbound": 50.0, "outbound": 0.0}),
+                                           S(NIC1 + ["traffic", "icmp"], {"inbound": 0.0, "outbound": 100.0})])
         # inner components at every enum member while the node itself is in every power state
         for nos in E["node"]:
             for v in E["service"]:
@@ -909,6 +926,7 @@ ENV_ACTIONS = ["idle", "ftp_send", "file_create", "file_delete", "dos", "login01
 def env_cfg(scn: Dict) -> Dict:
     bw = scn.get("bw")
     ftype = scn.get("file_type", "AVI")
+    fname = "big." + ftype.lower()  # the simulator derives the file type (and default size) from the extension
     nodes = [
         switch("sw", 8, start_up_duration=0, shut_down_duration=0),
         computer("h0", "192.168.1.10", gw="192.168.1.1", start_up_duration=0, shut_down_duration=1,
@@ -917,9 +935,9 @@ def env_cfg(scn: Dict) -> Dict:
                                {"type": "dos-bot", "options": {"target_ip_address": "192.168.1.11", "payload": "SPOOF DATA",
                                                                "port_scan_p_of_success": 1.0, "dos_intensity": 1.0,
                                                                "max_sessions": int(scn.get("dos_sessions", 150)), "repeat": True}}],
-                 folders=[{"folder_name": "media", "files": [{"file_name": "big.bin", "type": ftype}]}]),
+                 folders=[{"folder_name": "media", "files": [{"file_name": fname, "type": ftype}]}]),
         computer("h1", "192.168.1.11", gw="192.168.1.1", kind="server", start_up_duration=0, shut_down_duration=0,
-                 services=[{"type": "ftp-server"}, {"type": "database-service"}]),
+                 services=[{"type": "ftp-server"}]),
         {"type": "router", "hostname": "r0", "num_ports": 2, "start_up_duration": 0, "shut_down_duration": 0,
          "ports": {1: {"ip_address": "192.168.1.1", "subnet_mask": "255.255.255.0"}},
          "acl": {20: {"action": "PERMIT"}}},
@@ -927,7 +945,7 @@ def env_cfg(scn: Dict) -> Dict:
     links = [link("sw", 1, "h0", 1, bw), link("sw", 2, "h1", 1, bw), link("sw", 8, "r0", 1, bw)]
     opts = {
         "hosts": [{"hostname": "h0", "applications": [{"application_name": "dos-bot"}],
-                   "folders": [{"folder_name": "media", "files": [{"file_name": "big.bin"}]}]},
+                   "folders": [{"folder_name": "media", "files": [{"file_name": fname}]}]},
                   {"hostname": "h1", "services": [{"service_name": "ftp-server"}]}],
         "routers": [{"hostname": "r0"}],
         "num_services": 1, "num_applications": 1, "num_folders": 1, "num_files": 1, "num_nics": 1,
@@ -947,8 +965,8 @@ def env_cfg(scn: Dict) -> Dict:
         "ftp_send": {"action": "node-send-local-command", "options": {
             "node_name": "h0", "username": "admin", "password": "admin",
             "command": ["service", "ftp-client", "send", {"dest_ip_address": "192.168.1.11", "src_folder_name": "media",
-                                                          "src_file_name": "big.bin", "dest_folder_name": "in",
-                                                          "dest_file_name": "big.bin"}]}},
+                                                          "src_file_name": fname, "dest_folder_name": "in",
+                                                          "dest_file_name": fname}]}},
         "file_create": {"action": "node-file-create", "options": {"node_name": "h0", "folder_name": "media", "file_name": "blue.txt"}},
         "file_delete": {"action": "node-file-delete", "options": {"node_name": "h0", "folder_name": "media", "file_name": "blue.txt"}},
         "dos": {"action": "node-application-execute", "options": {"node_name": "h0", "application_name": "dos-bot"}},
@@ -997,16 +1015,29 @@ def run_env_case(case: Dict) -> CaseResult:
     peak = {"band": 0, "creations": 0, "sessions": 0}
     space0 = None
 
+    def note_peaks(nested):
+        try:
+            h0 = nested["NODES"]["HOST0"]
+            for proto in h0["NICS"][1].get("TRAFFIC", {}).values():
+                for v in ([proto] if "inbound" in proto else proto.values()):
+                    peak["band"] = max(peak["band"], v["inbound"], v["outbound"])
+            peak["creations"] = max(peak["creations"], h0.get("num_file_creations", 0))
+            peak["sessions"] = max([peak["sessions"]] + [nested["NODES"][k].get("users", {}).get("remote_sessions", 0)
+                                                         for k in ("HOST0", "HOST1", "ROUTER0")])
+        except (KeyError, TypeError, AttributeError):  # a malformed observation is reported by the oracle, not here
+            pass
+
     def check(tag, i, ret):
         nested_space = ag.observation_manager.space
         nested = ag.observation_manager.current_observation
-        bad = False
-        for off in all_offenders(nested_space, nested, []):
+        note_peaks(nested)
+        offs = all_offenders(nested_space, nested, [])
+        for off in offs:
             res.violate(f"obs-not-in-space:{_norm_path(off)}",
-                        f"{tag} op#{i}: leaf {off} = {leaf_at(nested, off[:-1])!r} not in {leaf_at_space(nested_space, off[:-1])}")
-            bad = True
-        if bad:
-            assert find_offender(nested_space, nested, []) is not None
+                        f"{tag} op#{i}: {describe_offender(nested_space, nested, off)}")
+        if offs:
+            if find_offender(nested_space, nested, []) != offs[0]:
+                raise AssertionError("harness: offender walkers disagree")
             return
         try:
             ok = env.observation_space.contains(ret)
@@ -1018,13 +1049,6 @@ def run_env_case(case: Dict) -> CaseResult:
             fs = gymnasium.spaces.flatten_space(nested_space)
             if not isinstance(ret, np.ndarray) or ret.shape != fs.shape:
                 res.violate("flat-obs-shape", f"{tag} op#{i}")
-        h0 = nested["NODES"]["HOST0"]
-        for proto in h0["NICS"][1].get("TRAFFIC", {}).values():
-            for v in ([proto] if "inbound" in proto else proto.values()):
-                peak["band"] = max(peak["band"], v["inbound"], v["outbound"])
-        peak["creations"] = max(peak["creations"], h0.get("num_file_creations", 0))
-        peak["sessions"] = max([peak["sessions"]] + [nested["NODES"][k].get("users", {}).get("remote_sessions", 0)
-                                                     for k in ("HOST0", "HOST1", "ROUTER0")])
 
     ops = [["reset"]] + list(case["ops"])
     steps = 0
@@ -1044,11 +1068,16 @@ def run_env_case(case: Dict) -> CaseResult:
                 steps += 1
                 check("step", i, out[0])
         except Exception as e:  # driver boundary; such failures are C01's business unless raised while observing
-            import traceback
-
-            if "_get_obs" in "".join(traceback.format_tb(e.__traceback__)) or "observ" in "".join(
-                    traceback.format_tb(e.__traceback__)):
-                res.violate(f"raise:{exc_sig(e)}", f"op#{i} {op}: {exc_msg(e)}")
+            sig = exc_sig(e)
+            if "_get_obs" in sig or "observ" in sig:
+                phase = "reset" if op[0] == "reset" else "step"
+                res.violate(f"raise:{phase}:{sig}", f"op#{i} {op}: {exc_msg(e)}")
+                # the nested observation was stored before flattening failed: name the offending leaf as well
+                nested_space, nested = ag.observation_manager.space, ag.observation_manager.current_observation
+                note_peaks(nested)
+                for off in all_offenders(nested_space, nested, []):
+                    res.violate(f"obs-not-in-space:{_norm_path(off)}",
+                                f"{phase} op#{i}: {describe_offender(nested_space, nested, off)}")
             res.label("cmp:env-raised")
             break
         if res.violations:
@@ -1063,6 +1092,7 @@ def env_case_strategy():
     act = st.one_of(
         st.sampled_from(list(range(len(ENV_ACTIONS)))),
         st.sampled_from([ENV_ACTIONS.index(a) for a in ("ftp_send", "file_create", "dos", "login01", "login10", "loginr0")]),
+        st.sampled_from([ENV_ACTIONS.index(a) for a in ("ftp_send", "login01")]),
     ).map(lambda k: ["act", k])
     ops = st.lists(st.one_of(act, act, act, act, act, act, st.just(["reset"])), min_size=2, max_size=14)
     scn = st.fixed_dictionaries({
@@ -1084,6 +1114,9 @@ def env_case_strategy():
 def worker(ctx: Ctx):
     from primaite.game.agent.observations.observations import AbstractObservation
 
+    import time
+
+    cpu0 = time.process_time()
     q = ctx.tier == "quick"
     E = enum_values()
     cap = session_cap()
@@ -1109,6 +1142,12 @@ def worker(ctx: Ctx):
         "boolean config flags x threshold sets x the counts {0, low, low+1, med, med+1, high, high+1, high+5, 1e6} / "
         "traffic and load at every band edge up to 10x nominal / 0..max_remote_sessions sessions / component absent"
     )
+    ctx.extra["component_rule"] = (
+        "component case = (observation class, ConfigSchema kwargs, zoo variant, list of leaf assignments / deletions / "
+        "observe points on a real describe_state()); non-trivial = >=1 observed leaf off the component's default "
+        "observation; distinct by case hash = (component type, config, leaf-value tuple). env cases = hand-built "
+        "scenario knobs + action list; non-trivial = traffic band >= 2, >= 2 file creations in a tick or >= 1 remote session"
+    )
     ctx.extra["component_assumptions"] = (
         "synthetic states contain only enum members, non-negative counts, <= max_remote_sessions sessions, monotone "
         "NMNE counters; NIC traffic up to 10x nominal speed is producible because only the link bandwidth (freely "
@@ -1125,3 +1164,4 @@ def worker(ctx: Ctx):
     hyp_run(ctx, fuzz_case(E, cap, refs, "nodes"), run_case, n(30, 1000), sub=14)
     hyp_run(ctx, fuzz_case(E, cap, refs, "host"), run_case, n(30, 1000), sub=15)
     hyp_run(ctx, env_case_strategy(), run_case, n(3, 60), sub=16)
+    ctx.extra["component_cpu_s"] = round(time.process_time() - cpu0, 2)  # summed over the workers in the evidence
